@@ -5,8 +5,16 @@ package consensus
 // C17 harness, hostile half, consensus reactor: hostile-input SEQUENCES (spec/TMPeerGossip.tla,
 // spec/TMPeerGossipSys.tla; trace spec spec/trace/TMPeerGossipTrace.tla).
 //
-// Same environment as zz_verif_c17_test.go "h1": a real consensus.State + Reactor on a real switch,
-// validator 0 of 4, sitting in height 1 round 0 with its own proposal and its own prevote.  The remote
+// A real consensus.State + Reactor on a real switch, validator 0 of 4 (the harness holds the other three
+// keys and a timeout ticker that fires only when told).  Node classes (TMPeerGossip!NodeClasses):
+//   nh_init / nh_init5  RoundStepNewHeight at the chain's initial height (1 / 5): no LastCommit, the NewHeight
+//                       timeout not fired (a node waiting for genesis time); a fresh node per sequence
+//   nh_commit           RoundStepNewHeight after a commit (LastCommit present)
+//   later               in round 0 with a complete proposal and its own prevote out
+// After EVERY sequence the node carries on: the NewHeight timeout (if still pending), one FAILED round (nil
+// prevotes / precommits of two other validators, prevote-wait and precommit-wait timeouts -> round 1), then a
+// COMMITTED height (proposal of round 1, prevotes and precommits of the three others).  "progress" in the End
+// line says whether that worked.  The remote
 // peer is a second real switch; for every sequence it opens a NEW connection (new PeerState; the node's
 // Reactor.AddPeer starts gossipDataRoutine, gossipVotesRoutine and queryMaj23Routine for it with bare
 // `go` statements, exactly as in production) and sends the sequence's messages one after the other, each
@@ -16,11 +24,23 @@ package consensus
 // The harness records only; TLC judges.
 
 import (
+	"bytes"
 	"encoding/json"
 	"fmt"
 	"os"
+	"path/filepath"
+	"sync"
 	"testing"
 	"time"
+
+	dbm "github.com/tendermint/tm-db"
+
+	abci "github.com/tendermint/tendermint/abci/types"
+	cstypes "github.com/tendermint/tendermint/consensus/types"
+	tmlog "github.com/tendermint/tendermint/libs/log"
+	"github.com/tendermint/tendermint/p2p"
+	sm "github.com/tendermint/tendermint/state"
+	"github.com/tendermint/tendermint/types"
 
 	tmcons "github.com/tendermint/tendermint/proto/tendermint/consensus"
 	tmbits "github.com/tendermint/tendermint/proto/tendermint/libs/bits"
@@ -42,6 +62,7 @@ type c17SeqMsg struct {
 
 type c17Seq struct {
 	Unit int         `json:"unit"`
+	NS   string      `json:"ns"`
 	Name string      `json:"name"`
 	Src  string      `json:"src"`
 	Msgs []c17SeqMsg `json:"msgs"`
@@ -61,13 +82,15 @@ func c17SeqBits(size int) tmbits.BitArray {
 }
 
 // concrete instance of an abstract message of TMPeerGossip!HostileMsgs
-func c17SeqBuild(c c17ConsCtx, m c17SeqMsg) (byte, []byte, bool) {
+func c17SeqBuild(c c17ConsCtx, initial int64, rel c17SeqMsg) (byte, []byte, bool) {
+	m := rel
+	m.H = c.H + rel.H - 1 // heights of the model are relative to the node's height (NodeH = 1)
 	foreignPSH := tmproto.PartSetHeader{Total: uint32(m.Size), Hash: c17Hash(6)}
 	foreignBID := tmproto.BlockID{Hash: c17Hash(5), PartSetHeader: tmproto.PartSetHeader{Total: 1, Hash: c17Hash(6)}}
 	switch m.K {
 	case "NRS":
 		lcr := int32(-1)
-		if m.H > 1 {
+		if m.H > initial {
 			lcr = 0
 		}
 		return StateChannel, c17Wrap(&tmcons.NewRoundStep{Height: m.H, Round: m.R, Step: m.S, SecondsSinceStartTime: 1,
@@ -108,6 +131,289 @@ func c17SeqBuild(c c17ConsCtx, m c17SeqMsg) (byte, []byte, bool) {
 	return 0, nil, false
 }
 
+// ---------------------------------------------------------------- a ticker that fires only when told
+type c17Ticker struct {
+	mtx  sync.Mutex
+	last timeoutInfo
+	have bool
+	c    chan timeoutInfo
+}
+
+func (t *c17Ticker) Start() error             { return nil }
+func (t *c17Ticker) Stop() error              { return nil }
+func (t *c17Ticker) Chan() <-chan timeoutInfo { return t.c }
+func (t *c17Ticker) SetLogger(tmlog.Logger)   {}
+func (t *c17Ticker) ScheduleTimeout(ti timeoutInfo) {
+	t.mtx.Lock()
+	t.last, t.have = ti, true
+	t.mtx.Unlock()
+}
+func (t *c17Ticker) scheduled(h int64, r int32, step cstypes.RoundStepType) bool {
+	t.mtx.Lock()
+	defer t.mtx.Unlock()
+	return t.have && t.last.Height == h && t.last.Round == r && t.last.Step == step
+}
+func (t *c17Ticker) fire() {
+	t.mtx.Lock()
+	ti := t.last
+	t.have = false
+	t.mtx.Unlock()
+	t.c <- ti
+}
+
+// ---------------------------------------------------------------- the controlled node
+type c17Ctl struct {
+	env     *c17Env
+	cs      *State
+	vss     []*validatorStub
+	tick    *c17Ticker
+	initial int64
+	cleanup func()
+}
+
+func c17NewCtl(name string, initial int64) *c17Ctl {
+	genDoc, privVals := randGenesisDoc(4, false, 30)
+	genDoc.InitialHeight = initial
+	stateDB := dbm.NewMemDB()
+	stateStore := sm.NewStore(stateDB, sm.StoreOptions{DiscardABCIResponses: false})
+	state, err := stateStore.LoadFromDBOrGenesisDoc(genDoc)
+	if err != nil {
+		panic(err)
+	}
+	thisConfig := ResetConfig("c17_seq_" + name)
+	thisConfig.Consensus.PeerGossipSleepDuration = 2 * time.Millisecond
+	thisConfig.Consensus.PeerQueryMaj23SleepDuration = 5 * time.Millisecond
+	thisConfig.Consensus.SkipTimeoutCommit = false
+	ensureDir(filepath.Dir(thisConfig.Consensus.WalFile()), 0o700)
+	app := newCounter()
+	app.InitChain(abci.RequestInitChain{Validators: types.TM2PB.ValidatorUpdates(state.Validators), InitialHeight: initial})
+	cs := newStateWithConfigAndBlockStore(thisConfig, state, privVals[0], app, stateDB)
+	tick := &c17Ticker{c: make(chan timeoutInfo, 16)}
+	cs.SetTimeoutTicker(tick)
+	conR := NewReactor(cs, true)
+	conR.SetEventBus(cs.eventBus)
+	if err := cs.blockExec.Store().Save(cs.state); err != nil {
+		panic(err)
+	}
+	env := c17NewEnv(name, map[string]p2p.Reactor{"CONSENSUS": conR}, []string{"CONSENSUS"})
+	cs.SetLogger(env.nlog)
+	conR.SetLogger(env.nlog)
+	ctl := &c17Ctl{env: env, cs: cs, tick: tick, initial: initial, cleanup: func() { os.RemoveAll(thisConfig.RootDir) }}
+	for i, pv := range privVals {
+		ctl.vss = append(ctl.vss, newValidatorStub(pv, int32(i)))
+	}
+	conR.SwitchToConsensus(cs.GetState(), false) // starts the state machine: RoundStepNewHeight, timeout pending
+	return ctl
+}
+
+func (ctl *c17Ctl) stop() {
+	ctl.env.stop()
+	ctl.cleanup()
+}
+
+func (ctl *c17Ctl) rs() *cstypes.RoundState {
+	var rs *cstypes.RoundState
+	if !c17WithTimeout(10*time.Second, func() { rs = ctl.cs.GetRoundState() }) {
+		return nil
+	}
+	return rs
+}
+
+func (ctl *c17Ctl) where() string {
+	rs := ctl.rs()
+	if rs == nil {
+		return "consensus state mutex held"
+	}
+	return fmt.Sprintf("%d/%d/%v", rs.Height, rs.Round, rs.Step)
+}
+
+func (ctl *c17Ctl) wait(cond func(rs *cstypes.RoundState) bool) bool {
+	return ctl.env.waitFor(func() bool {
+		rs := ctl.rs()
+		return rs != nil && cond(rs)
+	}, 8*time.Second)
+}
+
+func (ctl *c17Ctl) fireWhen(h int64, r int32, step cstypes.RoundStepType) bool {
+	if !ctl.env.waitFor(func() bool { return ctl.tick.scheduled(h, r, step) }, 8*time.Second) {
+		return false
+	}
+	ctl.tick.fire()
+	return true
+}
+
+func (ctl *c17Ctl) others(h int64, r int32, n int) []*validatorStub {
+	out := ctl.vss[1 : 1+n]
+	for _, vs := range out {
+		vs.Height, vs.Round = h, r
+	}
+	return out
+}
+
+// the node has a complete proposal for (h, r) and its own prevote out; the proposal comes from the node itself
+// or, if another validator is the proposer, is made and signed by the harness with that validator's key
+func (ctl *c17Ctl) proposalAndPrevote(h int64, r int32) string {
+	if !ctl.wait(func(rs *cstypes.RoundState) bool {
+		return rs.Height == h && rs.Round == r && rs.Step >= cstypes.RoundStepPropose
+	}) {
+		return "not in round " + fmt.Sprint(r) + ": " + ctl.where()
+	}
+	rs := ctl.rs()
+	prop := rs.Validators.GetProposer().Address
+	if !bytes.Equal(prop, ctl.cs.privValidatorPubKey.Address()) && rs.Proposal == nil {
+		for _, vs := range ctl.vss[1:] {
+			pk, _ := vs.GetPubKey()
+			if bytes.Equal(pk.Address(), prop) {
+				proposal, block := decideProposal(ctl.cs, vs, h, r)
+				parts := block.MakePartSet(types.BlockPartSizeBytes)
+				if err := ctl.cs.SetProposalAndBlock(proposal, block, parts, "c17-driver"); err != nil {
+					return "cannot hand in the proposal: " + err.Error()
+				}
+			}
+		}
+	}
+	if !ctl.wait(func(rs *cstypes.RoundState) bool {
+		return rs.Height == h && rs.Round == r && rs.ProposalBlock != nil && rs.Votes.Prevotes(r) != nil &&
+			rs.Votes.Prevotes(r).BitArray().GetIndex(0)
+	}) {
+		return "no proposal / own prevote in round " + fmt.Sprint(r) + ": " + ctl.where()
+	}
+	return "ok"
+}
+
+// RoundStepNewHeight -> round 0 with proposal and own prevote
+func (ctl *c17Ctl) startHeight() string {
+	rs := ctl.rs()
+	if rs == nil {
+		return "consensus state mutex held"
+	}
+	if rs.Step != cstypes.RoundStepNewHeight {
+		return "ok"
+	}
+	if !ctl.fireWhen(rs.Height, 0, cstypes.RoundStepNewHeight) {
+		return "NewHeight timeout not scheduled: " + ctl.where()
+	}
+	return ctl.proposalAndPrevote(rs.Height, 0)
+}
+
+// one failed round (node in round r with its prevote out) -> round r+1 with proposal and own prevote
+func (ctl *c17Ctl) failRound() string {
+	rs := ctl.rs()
+	if rs == nil {
+		return "consensus state mutex held"
+	}
+	h, r := rs.Height, rs.Round
+	signAddVotes(ctl.cs, tmproto.PrevoteType, nil, types.PartSetHeader{}, ctl.others(h, r, 2)...)
+	if !ctl.fireWhen(h, r, cstypes.RoundStepPrevoteWait) {
+		return "prevote-wait timeout not scheduled: " + ctl.where()
+	}
+	if !ctl.wait(func(rs *cstypes.RoundState) bool { return rs.Votes.Precommits(r).BitArray().GetIndex(0) }) {
+		return "no own precommit: " + ctl.where()
+	}
+	signAddVotes(ctl.cs, tmproto.PrecommitType, nil, types.PartSetHeader{}, ctl.others(h, r, 2)...)
+	if !ctl.fireWhen(h, r, cstypes.RoundStepPrecommitWait) {
+		return "precommit-wait timeout not scheduled: " + ctl.where()
+	}
+	return ctl.proposalAndPrevote(h, r+1)
+}
+
+// the three other validators vote for the node's proposal block: the height is committed, the node waits in
+// RoundStepNewHeight of the next height
+func (ctl *c17Ctl) commitHeight() string {
+	rs := ctl.rs()
+	if rs == nil {
+		return "consensus state mutex held"
+	}
+	h, r := rs.Height, rs.Round
+	hash, psh := rs.ProposalBlock.Hash(), rs.ProposalBlockParts.Header()
+	signAddVotes(ctl.cs, tmproto.PrevoteType, hash, psh, ctl.others(h, r, 3)...)
+	if !ctl.wait(func(rs *cstypes.RoundState) bool {
+		return rs.Height > h || (rs.Votes.Precommits(r) != nil && rs.Votes.Precommits(r).BitArray().GetIndex(0))
+	}) {
+		return "no own precommit for the block: " + ctl.where()
+	}
+	signAddVotes(ctl.cs, tmproto.PrecommitType, hash, psh, ctl.others(h, r, 3)...)
+	if !ctl.wait(func(rs *cstypes.RoundState) bool { return rs.Height == h+1 && rs.Step == cstypes.RoundStepNewHeight }) {
+		return "height not committed: " + ctl.where()
+	}
+	return "ok"
+}
+
+// what "the node carries on" means after a sequence
+func (ctl *c17Ctl) carryOn() string {
+	for _, f := range []struct {
+		name string
+		f    func() string
+	}{{"start", ctl.startHeight}, {"failed round", ctl.failRound}, {"commit", ctl.commitHeight}} {
+		var r string
+		if !c17WithTimeout(40*time.Second, func() { r = f.f() }) {
+			return f.name + ": hangs"
+		}
+		if r != "ok" {
+			return f.name + ": " + r
+		}
+	}
+	return "ok"
+}
+
+func (ctl *c17Ctl) probe() string {
+	if ctl.rs() == nil {
+		return "consensus state mutex held"
+	}
+	select {
+	case <-ctl.cs.done:
+		return "consensus receiveRoutine exited"
+	default:
+	}
+	if !ctl.cs.IsRunning() {
+		return "consensus state stopped"
+	}
+	return "ok"
+}
+
+func (ctl *c17Ctl) ctx() c17ConsCtx {
+	rs := ctl.cs.GetRoundState()
+	c := c17ConsCtx{H: rs.Height, R: rs.Round, N: 4}
+	if rs.ProposalBlockParts != nil && rs.ProposalBlock != nil {
+		hdr := rs.ProposalBlockParts.Header()
+		c.PSH = hdr.ToProto()
+		c.BID = tmproto.BlockID{Hash: rs.ProposalBlock.Hash(), PartSetHeader: c.PSH}
+		c.HasP = true
+	} else {
+		c.PSH = tmproto.PartSetHeader{Total: 1, Hash: c17Hash(3)}
+		c.BID = tmproto.BlockID{Hash: c17Hash(4), PartSetHeader: c.PSH}
+	}
+	_, v := rs.Validators.GetByIndex(1)
+	c.Addr1 = v.Address
+	return c
+}
+
+// the node class a sequence wants; "" if the node cannot be brought there
+func (ctl *c17Ctl) enter(ns string) string {
+	switch ns {
+	case "nh_init", "nh_init5":
+		return "ok" // fresh node: RoundStepNewHeight at the initial height, timeout pending
+	case "nh_commit", "later":
+		rs := ctl.rs()
+		if rs == nil {
+			return "consensus state mutex held"
+		}
+		if rs.Height == ctl.initial { // first use of this node: commit the initial height
+			if r := ctl.startHeight(); r != "ok" {
+				return r
+			}
+			if r := ctl.commitHeight(); r != "ok" {
+				return r
+			}
+		}
+		if ns == "later" {
+			return ctl.startHeight()
+		}
+		return "ok"
+	}
+	return "unknown node class " + ns
+}
+
 func TestVerifC17Seq(t *testing.T) {
 	inPath, outPath := os.Getenv("VERIF_IN"), os.Getenv("VERIF_OUT")
 	if inPath == "" || outPath == "" {
@@ -128,33 +434,48 @@ func TestVerifC17Seq(t *testing.T) {
 	defer f.Close()
 	out := &c17Out{f: f}
 	settle := time.Duration(in.Settle) * time.Millisecond
-	h := &c17ConsHooks{css: map[string][]*State{}}
-	var env *c17Env
+	var ctl *c17Ctl
+	nenv := 0
 	for _, sq := range in.Seqs {
 		if sq.Unit < in.Start {
 			continue
 		}
-		if env == nil {
-			env = h.newEnv("h1")
+		fresh := sq.NS == "nh_init" || sq.NS == "nh_init5"
+		if ctl != nil && (fresh || ctl.env.wedged != "") {
+			ctl.stop()
+			ctl = nil
 		}
+		if ctl == nil {
+			nenv++
+			initial := int64(1)
+			if sq.NS == "nh_init5" {
+				initial = 5
+			}
+			ctl = c17NewCtl(fmt.Sprintf("%d", nenv), initial)
+		}
+		env := ctl.env
 		run := sq.Unit + 1
-		out.emit(map[string]interface{}{"ev": "Reset", "run": run, "unit": sq.Unit, "name": sq.Name, "src": sq.Src, "msgs": sq.Msgs})
 		end := map[string]interface{}{"ev": "End", "run": run, "supported": true, "note": "", "honest": "n/a", "probe": "n/a",
-			"consensus_failure": 0, "retained": 0, "allocated": 0, "cap": 0, "stopped": false}
-		if env.wedged != "" || !env.reconnect() {
-			end["supported"], end["note"] = false, "node wedged by an earlier sequence or cannot connect: "+env.wedged
+			"progress": "n/a", "consensus_failure": 0, "retained": 0, "allocated": 0, "cap": 0, "stopped": false}
+		var entered string
+		if !c17WithTimeout(60*time.Second, func() { entered = ctl.enter(sq.NS) }) {
+			entered = "hangs"
+		}
+		rs := ctl.rs()
+		if entered != "ok" || rs == nil || !env.reconnect() {
+			// the node could not be brought into the class (never seen on a healthy tree): not executed
+			out.emit(map[string]interface{}{"ev": "Reset", "run": run, "unit": sq.Unit, "ns": sq.NS, "name": sq.Name, "src": sq.Src,
+				"nodeh": 0, "initial": ctl.initial, "msgs": sq.Msgs})
+			end["supported"], end["note"] = false, "node not in class "+sq.NS+": "+entered
 			out.emit(end)
+			env.wedged = "cannot enter " + sq.NS
 			continue
 		}
-		var c c17ConsCtx
-		if !c17WithTimeout(20*time.Second, func() { c = h.ctx(env) }) {
-			env.wedged = "reading the node's round state hangs"
-			end["supported"], end["note"] = false, env.wedged
-			out.emit(end)
-			continue
-		}
+		c := ctl.ctx()
+		out.emit(map[string]interface{}{"ev": "Reset", "run": run, "unit": sq.Unit, "ns": sq.NS, "name": sq.Name, "src": sq.Src,
+			"nodeh": c.H, "initial": ctl.initial, "msgs": sq.Msgs})
 		env.barrier(1)
-		if c17LastGCHeap < 0 || sq.Unit%64 == 0 {
+		if c17LastGCHeap < 0 || sq.Unit%64 == 0 || fresh {
 			c17LastGCHeap = c17HeapAfterGC()
 		}
 		alloc0 := c17TotalAlloc()
@@ -165,7 +486,7 @@ func TestVerifC17Seq(t *testing.T) {
 			row := map[string]interface{}{"ev": "Msg", "run": run, "i": i + 1, "m": m, "sent": false, "barrier": "n/a",
 				"stopped": true, "panic_caught": 0}
 			if env.node().Peers().Has(id) {
-				ch, b, ok := c17SeqBuild(c, m)
+				ch, b, ok := c17SeqBuild(c, ctl.initial, m)
 				if !ok {
 					panic(fmt.Sprintf("c17: no builder for %+v", m))
 				}
@@ -186,24 +507,24 @@ func TestVerifC17Seq(t *testing.T) {
 		}
 		// the node's goroutines for this peer keep running on what the sequence left in the peer state
 		time.Sleep(settle)
+		// ... and the node carries on
+		prog := ctl.carryOn()
+		end["progress"] = prog
 		end["stopped"] = !env.node().Peers().Has(id)
 		end["consensus_failure"] = env.nlog.count("CONSENSUS FAILURE") - consfail0
 		end["honest"] = env.barrier(2)
-		end["probe"] = h.probe(env)
+		end["probe"] = ctl.probe()
 		allocated := c17TotalAlloc() - alloc0
 		end["allocated"] = allocated
 		end["retained"] = c17Retained(allocated)
 		end["cap"] = maxcap
-		if end["probe"] != "ok" {
-			env.wedged = fmt.Sprintf("%v after %s", end["probe"], sq.Name)
+		if end["probe"] != "ok" || prog != "ok" {
+			env.wedged = fmt.Sprintf("%v / %v after %s", end["probe"], prog, sq.Name)
 		}
 		out.emit(end)
 	}
 	out.emit(map[string]interface{}{"ev": "Done", "run": 0})
-	if env != nil {
-		env.stop()
-	}
-	for _, cl := range h.cleanups {
-		cl()
+	if ctl != nil {
+		ctl.stop()
 	}
 }
